@@ -24,7 +24,8 @@ use std::sync::atomic::AtomicBool;
 use std::sync::{Arc, Mutex};
 
 /// the third additional algorithm has the longest legal name (63 bytes)
-pub const LONG63: &str = "cubic_012345678901234567890123456789012345678901234567890123456";
+// 63 bytes, one of them part of a two-byte character (a registered name need not be ASCII)
+pub const LONG63: &str = "cübic012345678901234567890123456789012345678901234567890123456";
 pub const NAMES: [&str; 4] = ["dflt", "reno", "renoX", LONG63];
 
 pub const ALPHA_SRC: &str = "(def (Report (volatile acked 0) (rtt 0)) (ctl 10) (volatile vctl 3))
@@ -895,7 +896,7 @@ pub fn gen_case(r: &mut Rng, adversarial: bool, faults: bool) -> String {
         "reno~0a", "reno~20", "renoX~09", "~20reno", "dflt~0d~0a", "Reno", "reno~00x", "RENO", "tcp_reno", "tcp_renoX", "reno.", "ccp_reno", "reno_",
         // unregistered names that agree with a registered one under a 32-bit digest (FNV-1a, FNV-1, CRC-32, djb2 in both
         // forms, sdbm, the 31-multiplier hash, FNV-1a/64 truncated and folded) or under any digest of the multiset of bytes
-        "nptvtxx", "aqoljhgr", "aacswgq", "ljnvuvo", "bboxcdf", "ajfwbvrx", "bmkcjyf", "jglvyrn", "bnprifm",
+        "cubic012345678901234567890123456789012345678901234567890123456", "nptvtxx", "aqoljhgr", "aacswgq", "ljnvuvo", "bboxcdf", "ajfwbvrx", "bmkcjyf", "jglvyrn", "bnprifm",
         "chbfzfa", "koumobg", "vqovhrp", "renny", "dsrrwso", "rennw", "kctfgyv", "alhqrvl", "oner", "Xoner", "onerX"];
     let mut evs = vec![];
     let mut live: Vec<(u64, u32)> = vec![];
